@@ -88,6 +88,8 @@ func runC20(t *testing.T, seed uint64, planJSON []byte, tier string) (res *Resul
 		plan.MaxOpen = simkit.Pick(g, []int{0, 0, 4, 16})
 		plan.Cfg = genATCfg(g, true)
 		plan.Cfg.ServerVersion = simkit.Pick(g, []string{"8.0.30", "8.0.30", "5.7.40", "8.0.28"})
+		// every request of every goroutine goes through session selection
+		plan.Cfg.LoadBalance = simkit.Pick(g, []string{"RandomLoadBalance", "XID", "RoundRobinLoadBalance", "ConsistentHashLoadBalance", "ConsistentHashLoadBalance", "LeastActiveLoadBalance"})
 		plan.GoschedP = simkit.Pick(g, []int{0, 10, 50})
 		if g.Bool() {
 			plan.P2LostConn = g.Range(1, 3)
